@@ -65,11 +65,19 @@ class ColSeries:
 class RowMask:
     """boolean Series aligned with a frame's rows (defined on the original row positions)"""
 
+    def __getattr__(self, attr):
+        from .ctx import unknown_attr
+
+        return unknown_attr("pandas.Series", attr, ("frame", "arr"))
+
     def __init__(self, frame, arr):
         self.frame, self.arr = frame, arr
 
 
 class _Loc:
+    def __getattr__(self, attr):
+        raise Unsupported("pandas .loc indexer attribute %s is not modelled" % attr)
+
     def __init__(self, frame):
         self.frame = frame
 
@@ -102,6 +110,11 @@ class _Loc:
 
 class FrameIndex:
     """row labels of a (subset) frame"""
+
+    def __getattr__(self, attr):
+        from .ctx import unknown_attr
+
+        return unknown_attr("pandas.Index", attr, ("frame",))
 
     def __init__(self, frame):
         self.frame = frame
@@ -160,6 +173,9 @@ _cnt = [0]
 
 
 class _ILoc:
+    def __getattr__(self, attr):
+        raise Unsupported("pandas .iloc / .loc indexer attribute %s is not modelled" % attr)
+
     def __init__(self, s):
         self.s = s
 
@@ -243,5 +259,5 @@ for _cls, _lab in ((ColSeries, "pandas.Series"), (Frame, "pandas.DataFrame"), (F
 
 from .npmodel import _fill_missing_operators as _fmo  # noqa: E402
 
-for _cls in (ColSeries, FlagSeries):
+for _cls in (ColSeries, FlagSeries, RowMask, FrameIndex):
     _fmo(_cls, "pandas." + _cls.__name__)
